@@ -83,7 +83,10 @@ def run(ctx):
         raise Inconclusive("the as-coded model no longer violates any property: the named deviations need review")
     hs = histories(ctx, gens["one"])
     if quick:
-        hs = hs[ctx.seed % 8::8]
+        # all histories with a write attempt in static context, and every 8th of the others
+        attempts = [h for h in hs if any(t.get("mode") == "write" for t in h)]
+        others = [h for h in hs if not any(t.get("mode") == "write" for t in h)]
+        hs = attempts + others[ctx.seed % 8::8]
     else:
         two = histories(ctx, gens["two"])
         # the two-transaction histories are far more numerous: an evenly spaced sample of 30 000
